@@ -203,16 +203,36 @@ fn gen_fops(s: &mut Src, exh: u32) -> Vec<FOp> {
         .collect()
 }
 
+/// bit-exact comparison of two snapshots (`0.0 == -0.0` under `==`, but they are different values: other bits, other text)
+fn same_snap(a: &Snap, b: &Snap) -> bool {
+    format!("{:?}", a) == format!("{:?}", b)
+}
+
 pub fn run_b(s: &mut Src, ctx: &mut Ctx) -> Verdict {
     let ops = gen_fops(s, ctx.exh);
     if probe_only() {
         return Verdict::Pass;
     }
-    ctx.describe(|| format!("start: k1 = 0, k2 = {{f: 0}}, k3 absent; ops: {:?}", ops));
+    // One case in four (by the case's salt; in the exhaustive parts too) writes floats instead of integers: 0 is 0.0,
+    // 1 is -0.0, 2 is 0.0 again -- a key is then overwritten inside a frame by the zero of the other sign, which a
+    // rollback has to take back like any other change.
+    let zeros = crate::core::case_bit(6) && crate::core::case_bit(21);
+    let val = |v: i64| -> (Value, V) {
+        if zeros {
+            let f = if v == 1 { -0.0 } else { 0.0 };
+            (Value::Number(f), V::Float(f))
+        } else {
+            (Value::Integer(v), V::Int(v))
+        }
+    };
+    ctx.describe(|| format!("start: k1 = 0, k2 = {{f: 0}}, k3 absent; ops: {:?}{}", ops, if zeros { " (values are floats: 0 = 0.0, 1 = -0.0, 2 = 0.0)" } else { "" }));
+    if zeros {
+        ctx.label("signed-zeros");
+    }
     let facts = Facts::new();
-    facts.set("k1", Value::Integer(0));
+    facts.set("k1", val(0).0);
     let mut o = std::collections::HashMap::new();
-    o.insert("f".to_string(), Value::Integer(0));
+    o.insert("f".to_string(), val(0).0);
     facts.set("k2", Value::Object(o));
     let mut model: Snap = snap_of(&facts);
     let mut stack: Vec<Snap> = Vec::new();
@@ -253,20 +273,20 @@ pub fn run_b(s: &mut Src, ctx: &mut Ctx) -> Verdict {
                 }
             }
             FOp::Set(k, v) => {
-                facts.set(KEYS[*k], Value::Integer(*v));
-                model.insert(KEYS[*k].to_string(), V::Int(*v));
+                facts.set(KEYS[*k], val(*v).0);
+                model.insert(KEYS[*k].to_string(), val(*v).1);
                 if let Some(w) = wrote_at_depth.last_mut() {
                     *w = true;
                 }
             }
             FOp::SetNested(k, v) => {
-                let r = facts.set_nested(&format!("{}.f", KEYS[*k]), Value::Integer(*v));
+                let r = facts.set_nested(&format!("{}.f", KEYS[*k]), val(*v).0);
                 let expect_ok = matches!(model.get(KEYS[*k]), Some(V::Obj(_)));
                 if r.is_ok() != expect_ok {
                     return Verdict::fail("set-nested-result", format!("op {}: set_nested returned {:?} but the root is {:?}", i, r.is_ok(), model.get(KEYS[*k])));
                 }
                 if let Some(V::Obj(m)) = model.get_mut(KEYS[*k]) {
-                    m.insert("f".into(), V::Int(*v));
+                    m.insert("f".into(), val(*v).1);
                     if let Some(w) = wrote_at_depth.last_mut() {
                         *w = true;
                     }
@@ -283,7 +303,7 @@ pub fn run_b(s: &mut Src, ctx: &mut Ctx) -> Verdict {
         }
         max_depth = max_depth.max(stack.len());
         let got = snap_of(&facts);
-        if got != model {
+        if !same_snap(&got, &model) {
             let kind = match op {
                 FOp::Rollback => "after-rollback",
                 FOp::Commit => "after-commit",
@@ -294,7 +314,7 @@ pub fn run_b(s: &mut Src, ctx: &mut Ctx) -> Verdict {
         }
         let sn = facts.snapshot();
         let via_snapshot: Snap = sn.data.iter().map(|(k, v)| (k.clone(), V::from_engine(v))).collect();
-        if via_snapshot != model {
+        if !same_snap(&via_snapshot, &model) {
             return Verdict::fail("undo-frames:snapshot-view", format!("op {}: snapshot() differs from get_all_facts()", i));
         }
         if facts.verif_undo_depth() != stack.len() {
